@@ -392,6 +392,8 @@ func orderRule(c *core.Ctx) {
 			if ret, isR := fn.Blocks[0].Instrs[len(fn.Blocks[0].Instrs)-1].(*ssa.Return); isR && len(ret.Results) == 1 {
 				if bo, isB := binop(ret.Results[0], token.LSS); isB {
 					ok = want(fn, bo.X, bo.Y)
+				} else if bo, isB := binop(ret.Results[0], token.GTR); isB {
+					ok = want(fn, bo.Y, bo.X) // q > p is p < q
 				}
 			}
 		}
